@@ -9,6 +9,12 @@ CHECKS = {
    text="Every import and module-rooted attribute chain in every file of the package is an obligation resolved against the installed numpy/scipy/h5py/stdlib namespaces and a history table of names that appear/disappear inside the declared range; each module is then imported natively. Exhaustive over the AST, decides the property for the installed versions.",
    note="Trusts the installed library namespaces, the hand-written history table and python's ast; dynamic references (computed getattr) and chains on call results are not seen.", ref="§5 C20"),
 }
+PROOF_NOTE = ("Trusted: pyvc's Python semantics (A9), z3/cvc5 (A10), floats as reals (A1), ground axiom schemas for "
+              "transcendental functions (A2), assumed numpy/scipy contracts in pyvc/npspec.py (A5-A7). Clauses labelled B/A/N in the "
+              "evidence file are not counted as proved.")
+CHECKS["C16"] = dict(cat="proof", tech="contract-based deductive verification: symbolic execution of the real function ASTs against sidecar contracts, VCs discharged by z3/cvc5",
+   text="Sidecar contracts on every ice-model method (index, gradient, depth_with_index, contains, attenuation_length of Antarctic/Uniform/Greenland/Arasim ice, LayeredIce dispatch) with symbolic model parameters; each obligation is generated from the current /repo source by pyvc and discharged by z3 for all inputs, array lengths and parameter values; counter-models are replayed natively.",
+   note=PROOF_NOTE, ref="§5 C16")
 NOT_YET = {}
 def main():
     props = [json.loads(l) for l in open(os.path.join(HERE, "properties.jsonl"))]
